@@ -393,7 +393,7 @@ def live_findings(tier, seed, search):
     return sub
 
 
-def adoption_of_every_order_type(res, seed):
+def adoption_of_every_order_type(res, seed, model_ok=True):
     """a restart adopts what the exchange holds for a known strategy - whatever the order type: LIMIT, LIMIT_ON_CLOSE and
     MARKET_ON_CLOSE bets of both sides, resting, part matched and complete.  The adopted order carries the exchange's terms (price,
     size, starting-price liability, side, persistence) and counts towards the strategy's exposure accordingly."""
@@ -401,6 +401,7 @@ def adoption_of_every_order_type(res, seed):
     from unittest import mock
     from betfairlightweight.resources.bettingresources import CurrentOrder
     rng = random.Random(seed * 101 + 7)
+    lines, impls, payloads = [], [], []
     for case in range(60):
         w2 = ld.LiveWorld(random.Random(1), strategy_names=("alpha",), with_market=False)
         try:
@@ -438,6 +439,16 @@ def adoption_of_every_order_type(res, seed):
                     continue
                 o = got[0]
                 ot_ = o.order_type
+                # correspondence with the model's adoptType (`live.adopt`): the terms of the snapshot in, the order type out
+                co = next(c for c in cos if str(c.bet_id) == str(b["bet"]))
+                lines.append("live.adopt %s %s %s %s %s" % (co.order_type, common.tok(co.price_size.price), common.tok(co.price_size.size),
+                                                          common.tok(co.bsp_liability), co.persistence_type))
+                impls.append(" ".join([ot_.ORDER_TYPE.name,
+                                       common.tok(ot_.price) if getattr(ot_, "price", None) is not None else ".",
+                                       common.tok(ot_.size) if getattr(ot_, "size", None) is not None else ".",
+                                       common.tok(ot_.liability) if getattr(ot_, "liability", None) is not None else ".",
+                                       getattr(ot_, "persistence_type", None) if b["kind"] == "LIMIT" else "."]))
+                payloads.append(dict(payload, bet=b))
                 problems = []
                 if ot_.ORDER_TYPE.name != b["kind"] or o.side != b["side"] or o.selection_id != b["sel"]:
                     problems.append("type / side / selection %s %s %s" % (ot_.ORDER_TYPE.name, o.side, o.selection_id))
@@ -453,6 +464,9 @@ def adoption_of_every_order_type(res, seed):
             res.nontrivial.add("adoption %d" % case)
         finally:
             w2.shutdown()
+    for line, impl, ans, pl in zip(lines, impls, common.run_driver(lines) if (model_ok and lines) else [], payloads):
+        if ans != impl:
+            res.disagree({"request": line, "model": ans, "implementation": impl, "case": pl})
 
 
 def run(res, tier, seed, model_ok, search):
@@ -461,7 +475,7 @@ def run(res, tier, seed, model_ok, search):
                 "placement, replaced bets; then everything outstanding is answered and one snapshot of the exchange's bet table is processed: "
                 "agreement check; then a restart with the same exchange state (sometimes with one strategy missing). distinct = case index")
     run_histories(res, tier, seed, model_ok, search)
-    adoption_of_every_order_type(res, seed)
+    adoption_of_every_order_type(res, seed, model_ok)
 
 
 def replay(payload):
